@@ -210,7 +210,7 @@ func (k *kase) expectServed(when string, s *spec, allowed ...*actor) {
 			continue
 		}
 		for _, a := range k.actors {
-			if strings.HasPrefix(r.Who, a.id+"|") {
+			if strings.HasPrefix(r.Who, a.id+"|"+k.pfx) {
 				k.c.Violation(k.key("traffic-served-by-another-session"), "%s: proxy %s (%s) is registered by %v, but a request was answered by %s (a session that gave the route up or never had it): %s",
 					when, s.Name, s.Kind, ids, r.Who, describe(rs))
 				return
@@ -229,7 +229,7 @@ func (k *kase) expectGone(when string, s *spec, dead *actor, others ...*actor) {
 	run.Count("traffic_probes", int64(len(rs)))
 	k.c.Ev("probe-gone", "when", when, "name", s.Name, "results", describe(rs))
 	for _, r := range rs {
-		if r.Who != "" && strings.HasPrefix(r.Who, dead.id+"|") {
+		if r.Who == dead.id+"|"+s.Name {
 			k.c.Violation(k.key("released-proxy-still-served"), "%s: endpoint of released proxy %s (%s) is still answered by the former owner: %s", when, s.Name, s.Kind, describe(rs))
 			return
 		}
@@ -257,6 +257,7 @@ func (k *kase) mustRegister(when string, a *actor, s *spec, vioKey string) bool 
 	}
 	if s.real != 0 {
 		k.sc.ports[s.real] = true
+		k.sc.proto[s.real] = baseKind(s.Kind)
 	}
 	return true
 }
@@ -304,7 +305,7 @@ func (k *kase) withSib(lv []live) []live {
 // runCase executes one scenario.
 func runCase(c *h.Case, e *env, kind, path string) {
 	k := &kase{c: c, e: e, kind: kind, path: path, rng: c.Rng, pfx: fmt.Sprintf("c%d.", c.Idx), tag: fmt.Sprintf("k%dk", c.Idx)}
-	k.sc = &scope{e: e, pfx: k.pfx, tag: k.tag, ports: map[int]bool{}, rids: map[string]string{}}
+	k.sc = &scope{e: e, pfx: k.pfx, tag: k.tag, ports: map[int]bool{}, proto: map[int]string{}, rids: map[string]string{}}
 	c.Data["env"], c.Data["kind"], c.Data["path"] = e.name, kind, path
 	defer func() {
 		for _, a := range k.actors {
